@@ -427,6 +427,75 @@ func TestVerif_Forced(t *testing.T) {
 			r.Violation(key, idx, map[string]any{"scenario": "empty table set", "variant": variant, "message": msg})
 		}
 	}
+	// The registration of a change iterator is a committed write to the table like any other: an iterator Close() that queues for
+	// the table lock while another iterator is registered and committed must build on that commit, not on what it saw before.
+	for variant := 0; variant < 2; variant++ {
+		idx++
+		if isReplay && !(replayPart == "forced" && replayIdx == idx) {
+			continue
+		}
+		db := statedb.New()
+		tabs := concw.NewTables(db, "q", 1)
+		hn := fmt.Sprintf("closer%d", idx)
+		hc := db.NewHandle(hn)
+		w := hc.WriteTxn(tabs[0])
+		it1, err := tabs[0].Changes(w)
+		w.Commit()
+		if err != nil {
+			t.Fatal(err)
+		}
+		pa := ctl.PauseAt(hn, "wtxn.beforeLock")
+		closed := make(chan struct{})
+		go func() { defer close(closed); it1.Close() }()
+		key, msg := "", ""
+		if pa.WaitPaused(10 * time.Second) {
+			w := db.WriteTxn(tabs[0])
+			it2, err := tabs[0].Changes(w)
+			tabs[0].Insert(w, &concw.Row{ID: "x", V: 1})
+			w.Commit()
+			if err != nil {
+				t.Fatal(err)
+			}
+			if variant == 1 {
+				seq, _ := it2.Next(db.ReadTxn())
+				for range seq {
+				}
+			}
+			pa.Resume()
+			<-closed
+			w = db.WriteTxn(tabs[0])
+			tabs[0].Delete(w, &concw.Row{ID: "x"})
+			w.Commit()
+			sawDelete := false
+			for k := 0; k < 3 && !sawDelete; k++ {
+				seq, _ := it2.Next(db.ReadTxn())
+				for ch := range seq {
+					if ch.Deleted && ch.Object.ID == "x" {
+						sawDelete = true
+					}
+				}
+			}
+			if !sawDelete && variant == 1 {
+				key, msg = "lost-write/tracker-registration", "an iterator registered (and committed) while another iterator's Close() was queued for the table lock is never handed a later deletion: its registration was overwritten by the Close"
+			}
+			if variant == 0 && !sawDelete {
+				// (without an earlier Next the iterator may legitimately see nothing of x at all: inserted and deleted since it was created)
+				if _, _, ok := tabs[0].Get(db.ReadTxn(), concw.IDIndex.Query("x")); ok {
+					key, msg = "lost-write/tracker-registration", "x still present after its deletion"
+				}
+			}
+			it2.Close()
+			r.Count("pause_points_reached", 1)
+		} else {
+			pa.Resume()
+			<-closed
+		}
+		r.Count("probes", 1)
+		r.Case(vkit.NewHash().Str("queued-close").Int(int64(variant)).Sum(), true)
+		if key != "" {
+			r.Violation(key, idx, map[string]any{"scenario": "queued close", "variant": variant, "message": msg})
+		}
+	}
 	for _, v := range ctl.Violations() {
 		r.Violation("monitor/"+v[:min(40, len(v))], 0, map[string]any{"message": v})
 	}
